@@ -34,7 +34,7 @@ fn main() {
     std::process::exit(scoring::probe_main(&args[1]));
   }
   let mut ctx = Ctx::from_args("C09", "exploration", &args);
-  ctx.rule = "per case one corpus of 50-3000 short documents over a Zipfian 40-word vocabulary in 1-3 segments (posting lists of the frequent words span many 128-entry blocks; 25% of the corpora with upserts/deletes; k1/b randomised) and 30-40 random scored requests (term, query_string, multi_match incl. cross_fields, prefix, dis_max+tie_breaker, bool, boosts 0-10, constant_score, function_score, rank_feature, script_score; limit 1..50; optional root filter). For every request the exhaustive `bm25` result with limit >= corpus size is the reference; `wand`, `bmw` (default block) and `bmw` with bmw_block_size 1..300 are run with the real limit and must return an admissible top-k of the reference (position-wise identical, or differing only inside groups of scores equal within rel 2e-5; bit-equal scores in (segment, doc) order); one strategy per request additionally fetches page 2 through the cursor and page1+page2 is compared with the reference top-2k (documents whose score ties with the cursor boundary within the tolerance are left out of that comparison). evaluations = strategy-vs-reference comparisons. A request is non-trivial (counted once by hash of corpus+request) when the reference has more matches than the limit AND the `profile` counters show that at least one strategy really skipped documents (scored_docs below the exhaustive run's).".into();
+  ctx.rule = "per case one corpus of 50-3000 short documents over a Zipfian 40-word vocabulary in 1-3 segments (posting lists of the frequent words span many 128-entry blocks; 25% of the corpora with upserts/deletes; k1/b randomised) and 30-40 random scored requests (term, query_string, multi_match incl. cross_fields, prefix, dis_max+tie_breaker, bool, boosts 0-10, constant_score, function_score, rank_feature, script_score; limit 1..50, for 40% of the requests placed at/just after the largest relative score drop of the exhaustive list, where threshold/upper-bound off-by-ones show; optional root filter). For every request the exhaustive `bm25` result with limit >= corpus size is the reference; `wand`, `bmw` (default block) and `bmw` with bmw_block_size 1..300 are run with the real limit and must return an admissible top-k of the reference (position-wise identical, or differing only inside groups of scores equal within rel 2e-5; bit-equal scores in (segment, doc) order; when no score leaf can sum >= 3 postings, scores are bit-reproducible and the list must equal the reference prefix exactly; a pruned run must also still report next_cursor when more hits exist); one strategy per request additionally fetches page 2 through the cursor and page1+page2 is compared with the reference top-2k (documents whose score ties with the cursor boundary within the tolerance are left out of that comparison). evaluations = strategy-vs-reference comparisons. A request is non-trivial (counted once by hash of corpus+request) when the reference has more matches than the limit AND the `profile` counters show that at least one strategy really skipped documents (scored_docs below the exhaustive run's).".into();
   ctx.assumptions = vec![
     "float summation order inside a score leaf is unspecified, hence the tolerance-equal groups; anything beyond rel 2e-5 is a divergence".into(),
     "profile:true is set on every run (reference and strategies alike) to read the pruning counters; that profile does not change results is C20's property".into(),
